@@ -655,7 +655,7 @@ def probes_for(doc, rng):
 
 
 def make_case(doc, rng, tag):
-    docs = [["yaml", to_yaml(doc, rng)], ["json", to_json(doc, rng)]]
+    docs = [[rng.choice(["yaml", "yaml", "yml"]), to_yaml(doc, rng)], ["json", to_json(doc, rng)]]
     tm = to_toml(doc, rng)
     if tm is not None:
         docs.append(["toml", tm])
